@@ -23,9 +23,15 @@ func usage() {
 	os.Exit(2)
 }
 
+// extraCmds lets other files of this package register sub-commands in init().
+var extraCmds = map[string]func(args []string) int{}
+
 func main() {
 	if len(os.Args) < 2 {
 		usage()
+	}
+	if f, ok := extraCmds[os.Args[1]]; ok {
+		os.Exit(f(os.Args[2:]))
 	}
 	switch os.Args[1] {
 	case "sweep", "func":
